@@ -550,13 +550,86 @@ def check(spec):
     return res
 
 
+def check_reuse(spec):
+    """One DifferentiationMapper instance applied to a sequence of expressions that
+    are built, differentiated and dropped again (so object addresses are re-used);
+    every result must still be the derivative of *that* expression.
+    spec: {"exprs": [...], "var": vspec, "points": [...], "order": [indices]}"""
+    import gc
+    res = Result()
+    try:
+        especs, vspec, points, order = (spec["exprs"], spec["var"], spec["points"],
+                                        spec["order"])
+    except (KeyError, TypeError):
+        raise HarnessError("malformed C10 reuse spec") from None
+    if not especs or vspec[0] not in ("Var", "Subscript"):
+        raise HarnessError("malformed C10 reuse spec")
+    var = build(vspec)
+    if isinstance(var, p.Variable) and var.name not in SCALARS:
+        raise HarnessError("name is not a scalar variable of the fragment")
+    if isinstance(var, p.Subscript) and not (
+            var.aggregate == p.Variable(AGG) and isinstance(var.index, int)):
+        raise HarnessError("subscript variable must be a[<int>]")
+    pts = [_build_point(pt) for pt in points]
+    dm = DifferentiationMapper(var, allowed_nonsmoothness="discontinuous")
+    n_ok = 0
+    for step, i in enumerate(order):
+        espec = especs[i % len(especs)]
+        e = build(espec)
+        try:
+            fresh = differentiate(e, var, allowed_nonsmoothness="discontinuous")
+        except RecursionError:
+            raise
+        except Exception:
+            del e
+            continue        # refusals / undefined inputs are the diff sub-check's business
+        try:
+            d = dm(e)
+        except RecursionError:
+            raise
+        except Exception as exc:
+            res.fail("reused-mapper-raised:" + exc_site(exc),
+                     f"call {step} on {e!r}: {type(exc).__name__}: {exc}; a fresh "
+                     f"mapper returns {fresh!r}")
+            break
+        bad = False
+        for pt in pts:
+            verdict, detail = _judge_point(e, d, var, pt)
+            if verdict == "skip":
+                continue
+            res.compared()
+            if verdict in ("ok", "ok-adjudicated"):
+                n_ok += 1
+                continue
+            # only a failure if a fresh mapper gets it right (else: diff sub-check)
+            v2, _ = _judge_point(e, fresh, var, pt)
+            if v2 in ("ok", "ok-adjudicated"):
+                res.fail("reused-mapper-wrong-derivative",
+                         f"call {step} of {order} on one DifferentiationMapper: d/d{var} "
+                         f"of {repr(e)[:200]} = {repr(d)[:200]} at {_show(pt)}: {detail}; "
+                         f"a fresh mapper gives {repr(fresh)[:200]}")
+                bad = True
+                break
+        del e, d, fresh
+        gc.collect()
+        if bad:
+            break
+    if res.comparisons == 0:
+        return res.skip("no-usable-point")
+    res.label("reuse", "value-checked")
+    res.nontrivial = len(order) >= 3 and len(especs) >= 2
+    res.sample = {"exprs": [repr(build(s))[:120] for s in especs[:3]], "order": order,
+                  "var": repr(var)}
+    return res
+
+
 def _show(pt):
     return {k: (str(v) if isinstance(v, Fraction) else
                 [str(c) if isinstance(c, Fraction) else c for c in v]
                 if isinstance(v, list) else v) for k, v in pt.items()}
 
 
-CHECKS = {"diff": check, "grid": check}
+CHECKS = {"diff": check, "grid": check, "reuse": check_reuse}
 
 
 # {{{ known findings
@@ -884,6 +957,26 @@ def diff_case():
     return st.integers(0, 2**62).map(make_case)
 
 
+def make_reuse_case(seed):
+    rng = random.Random(seed)
+    mode = rng.choice(("alg", "alg", "trans"))
+    g = _G(rng, mode, 2, False)
+    especs = [g.gen(rng.choice((1, 2, 2, 3))) for _ in range(rng.randint(2, 5))]
+    which = rng.choice(("x", "x", "y"))
+    value = _frac if mode == "alg" else _dyadic
+    points = []
+    for _ in range(2):
+        pt = {n: value(rng) for n in SCALARS}
+        pt[AGG] = ["List", [value(rng) for _ in range(N_AGG)]]
+        points.append(pt)
+    order = [rng.randint(0, 7) for _ in range(rng.randint(3, 10))]
+    return {"exprs": especs, "var": V(which), "points": points, "order": order}
+
+
+def reuse_case():
+    return st.integers(0, 2**62).map(make_reuse_case)
+
+
 # -- enumerated grid -----------------------------------------------------------
 
 _POOL = {
@@ -955,6 +1048,7 @@ def generate(ctx):
                 n += 1
     ctx.exhaustive["two-operand constructs x operand pool x variable x setting"] = n
     ctx.run_given(diff_case(), lambda s: ctx.judge("diff", s), ctx.n(40000, 1600000))
+    ctx.run_given(reuse_case(), lambda s: ctx.judge("reuse", s), ctx.n(3000, 60000))
 
 # }}}
 
